@@ -24,6 +24,9 @@ struct Seen { int sink; QString text; int seq; bool hasSeq; };
 struct RecSink : Sink { int id; std::vector<Seen> *log; RecSink(int id, std::vector<Seen> *l) : id(id), log(l) {}
     void send(const LogMessage &m) override { log->push_back({ id, m.message(), m.attribute(QStringLiteral("seq_number")).toInt(), m.hasAttribute(QStringLiteral("seq_number")) }); } };
 struct Rej : Filter { bool filter(const LogMessage &) override { return false; } };
+// every message gets the SAME formatted text: a filter that looked at the formatted text instead of the message text
+// would see one long run of duplicates
+struct ConstFmt : Formatter { QString format(const LogMessage &) override { return QStringLiteral("formatted"); } };
 
 LogMessage mk(int text, int type)
 {
@@ -41,7 +44,7 @@ struct World {
     World()
     {
         p1 << seq << dup << QSharedPointer<RecSink>::create(1, &log);
-        p2 << seq << dup << QSharedPointer<Rej>::create() << QSharedPointer<RecSink>::create(2, &log);
+        p2 << QSharedPointer<ConstFmt>::create() << seq << dup << QSharedPointer<Rej>::create() << QSharedPointer<RecSink>::create(2, &log);
     }
     std::string canon() const
     {
@@ -81,6 +84,7 @@ std::string runHistory(const std::vector<Msg> &h, vx::Summary *sum, bool *bad)
             for (int th = 0; th < 5; th++) {
                 LevelFilter lf(TYPES[th]);
                 bool v = lf.filter(m), e = prio(mm.type) >= prio(th);
+                { LogMessage fm(m); fm.setFormattedMessage(QStringLiteral("fatal critical")); fm.setAttribute(QStringLiteral("type"), QStringLiteral("fatal")); if (lf.filter(fm) != v) v = !e; }
                 sum->counters[v ? "level_pass" : "level_drop"]++;
                 if (v != e) sum->violate(std::string("level:") + TYN[th] + "/" + TYN[mm.type], std::string("LevelFilter(") + TYN[th] + ") " + (v ? "passes" : "drops") + " a " + TYN[mm.type] + " message", "{\"kind\":\"c16-level\",\"threshold\":" + vx::jstr(TYN[th]) + ",\"type\":" + vx::jstr(TYN[mm.type]) + "}");
             }
@@ -116,8 +120,18 @@ void regexDump(const char *path, int maxTok, int maxLen, vx::Summary &sum)
             for (auto &s : strs) {
                 static QMessageLogContext ctx("f", 1, "fn", "c");
                 LogMessage m(QtDebugMsg, ctx, s);
-                line += flt.filter(m) ? '1' : '0';
+                bool verdict = flt.filter(m);
+                line += verdict ? '1' : '0';
                 sum.counters["regex_cases"]++;
+                // "matches the message text": the verdict may not depend on what a formatter upstream produced, nor on attributes
+                const QString deco[3] = { QStringLiteral("ab\nab") + s + QStringLiteral("ba"), QStringLiteral(""), QStringLiteral("zz") };
+                for (auto &dtxt : deco) {
+                    LogMessage fm(m); fm.setFormattedMessage(dtxt); fm.setAttribute(QStringLiteral("message"), dtxt);
+                    sum.counters["regex_cases_behind_formatter"]++;
+                    if (flt.filter(fm) != verdict)
+                        sum.violate("regex:formatted-text", "RegExpFilter(" + re.toStdString() + ") decides differently on message text " + vx::jstr(s) + " once the message carries the formatted text " + vx::jstr(dtxt),
+                                    "{\"kind\":\"c16-regex-formatted\",\"regex\":" + vx::jstr(re) + ",\"text\":" + vx::jstr(s) + ",\"formatted\":" + vx::jstr(dtxt) + "}");
+                }
             }
             fprintf(f, "%s\n", line.c_str());
         }
